@@ -19,6 +19,14 @@ def run(chk):
     dt.replay(chk, res.cases, "C01", cli_sample=200 if quick else 2000)
     from props import diff_long
     diff_long.run(chk, n=40 if quick else 400)
+    # acceptance of git's own diffs whatever the files contain (DiffText.tla: unidiff's outer loop)
+    from props import difftext_replay as dtr
+    for consts in (dict(MaxSections=1, MaxHunks=2, MaxBody=2), dict(MaxSections=2, MaxHunks=2, MaxBody=1)):
+        r4 = vlib.run_tlc("MC_DiffText", cfg_text=rc.set_consts("MC_DiffText", **consts), timeout=1800, heap="12g")
+        chk.add_tlc(r4, "MC_DiffText %s" % consts)
+        cs = r4.cases
+        chk.rng.shuffle(cs)
+        dtr.replay(chk, cs[:250 if quick else len(cs)], "dtx%d-" % consts["MaxSections"])
     # the affects validator itself: every context of blocks x names x touch state x reference shape
     from props import affects_replay as ar
     r2 = vlib.run_tlc("MC_Affects", timeout=3000, heap="16g")
